@@ -190,6 +190,10 @@ class RectGrid(Set):
         # Lazily evaluates strides when needed but stores the result
         self.__stride = None
 
+        # The grid is immutable (and hashable): the arrays handed out by
+        # `coord_vectors` (and the `meshgrid` views) must not be writable
+        for vec in vecs:
+            vec.setflags(write=False)
         self.__coord_vectors = vecs
 
         # Non-degenerate axes
